@@ -55,7 +55,8 @@ def handle (args : List String) (impl : String) : Verdict :=
         | some b => (match pbDecodePoints b with | .ok qs => some (ptsOut qs) | _ => none)
         | none => none
       let inScope := utf8ok && tombOk && !hasNaN ps
-      let ok := back == some (ptsStr ps)
+      -- both sides in the form the implementation prints (UnixNano wraps for times outside the int64 range, e.g. the zero time)
+      let ok := back == some (ptsOut (ps.map modelOfPt))
       { model := if utf8ok && !hasNaN ps then m else impl, spec := if inScope then some ok else none, inScope := utf8ok && !hasNaN ps,
         note := cls (ok || !inScope) "point-roundtrip" }
     | none => bad "C12 ep"
